@@ -1,6 +1,7 @@
 package v1
 
 import (
+	"crypto/rand"
 	"bytes"
 	"encoding/base64"
 	"errors"
@@ -78,4 +79,55 @@ func VerifForgedDocument() {
 	out, rerr := vReadAll(dec, 4, 8)
 	zzverif.Assert(rerr != io.EOF, "forged_document_never_ends_cleanly")
 	zzverif.Assert(len(out) == 0, "forged_plaintext_never_released")
+}
+
+// "... or a different file key unwrapped": an authentic document (the real Encrypt, symbolic file key and plaintext)
+// is given to Decrypt with a vault that answers with something else than the document's file key - a refusal (nil or a
+// short key with an error) or ANY other 32-byte key (symbolic, assumed different). Decrypt must fail or its stream must
+// end in an error (unless exactly the plaintext came out), and nothing that is not a prefix of the plaintext is released. Primitives collision-free as above.
+//
+//verif:harness prop=C02 name=different_key_unwrapped threads=3 sched=delay preempt=0 unwind=200 race=off witness=lenient
+func VerifDifferentKeyUnwrapped() {
+	zzverifstubs.Init()
+	vWires = nil
+	zzverif.UFCollisionFree("HKDF")
+	zzverif.UFCollisionFree("HMAC_SHA256")
+	zzverif.UFCollisionFree("Seal")
+	rnd := zzverif.Bytes("random", 39)
+	rand.Reader = &vRand{b: append([]byte{}, rnd...)}
+	plain := zzverif.Bytes("plaintext", zzverif.Choose("plaintext_len", 3))
+	ciph := []Cipher{CipherAESGCM, CipherChaCha20Poly1305}[zzverif.Choose("cipher", 2)]
+	wrapFn := func(key []byte, alg string, name string, nonce []byte) ([]byte, []byte, error) {
+		w := make([]byte, len(key))
+		for i := range key {
+			w[i] = key[i] ^ 0xA5
+		}
+		return w, nil, nil
+	}
+	enc, err := Encrypt(bytes.NewReader(plain), EncryptOptions{WrapKeyFn: wrapFn, Algorithm: KeyAlgorithmAES256KW, KeyName: "k", Cipher: &ciph})
+	zzverif.Assume(err == nil)
+	doc, err := vReadAll(enc, 128, 8)
+	zzverif.Assume(err == io.EOF)
+
+	answer := zzverif.Choose("vault_answer", 3)
+	other := zzverif.Bytes("other_key", 32)
+	zzverif.Assume(!zzverif.EqBytes(other, rnd[:32]))
+	unwrapFn := func(wrapped []byte, alg string, name string, nonce, tag []byte) ([]byte, error) {
+		switch answer {
+		case 0:
+			return nil, errors.New("vault: no such key")
+		case 1:
+			return make([]byte, 16), errors.New("vault: integrity check failed")
+		}
+		return append([]byte{}, other...), nil
+	}
+	dec, err := Decrypt(bytes.NewReader(doc), DecryptOptions{UnwrapKeyFn: unwrapFn})
+	if err != nil {
+		zzverif.Cover("different_key_refused")
+		return
+	}
+	out, rerr := vReadAll(dec, 4, 8)
+	// the property allows a clean end only when exactly the original plaintext was released
+	zzverif.Assert(rerr != io.EOF || (len(out) == len(plain) && zzverif.EqBytes(out, plain)), "different_key_ends_in_error_unless_plaintext_exact")
+	zzverif.Assert(len(out) <= len(plain) && zzverif.EqBytes(out, plain[:len(out)]), "different_key_releases_only_plaintext_prefix")
 }
